@@ -49,6 +49,10 @@ fn rnd<F: PrimeField>(rng: &mut Rng) -> F {
     }
     F::from_le_bytes_mod_order(&b)
 }
+/// random non-zero element (coset offsets)
+fn rnz<F: PrimeField>(rng: &mut Rng) -> F {
+    loop { let x = rnd::<F>(rng); if !x.is_zero() { return x; } }
+}
 /// random vector with a sprinkling of 0, 1, p-1
 fn rvec<F: PrimeField>(rng: &mut Rng, len: usize) -> Vec<F> {
     (0..len)
@@ -139,7 +143,7 @@ fn edge_lens(size: usize) -> Vec<usize> {
 }
 
 fn offsets<F: FftField + PrimeField, D: Dom<F>>(d: &D, rng: &mut Rng) -> Vec<F> {
-    vec![F::one(), F::GENERATOR, rnd(rng), d.group_gen()]
+    vec![F::one(), F::GENERATOR, rnz(rng), d.group_gen()]
 }
 
 fn transforms<F: FftField + PrimeField, D: Dom<F>>(id: &str, d: &D, off: F, c: &[F], which: u8, out: &mut Out) {
@@ -219,10 +223,10 @@ fn kind_ops<F: FftField + PrimeField, D: Dom<F>>(id: &str, caps: &Caps, thorough
     let sizes: Vec<usize> = family::<F>(caps.edge_max).into_iter().filter(|&m| D::new(m).map(|d| d.size() == m).unwrap_or(false)).collect();
     for &m in sizes.iter().filter(|&&m| m <= 64 || m == 1024) {
         let d = D::new(m).unwrap();
-        for off in [F::zero(), F::one(), F::GENERATOR, -F::one(), rnd(rng), d.group_gen()] {
+        for off in [F::zero(), F::one(), F::GENERATOR, -F::one(), rnz(rng), d.group_gen()] {
             out.line(&format!("C07 coset {} {} {:x} {}", id, D::K, m, h(&off)), &guarded(|| opt_dom::<F, D>(d.get_coset(off))));
         }
-        for off in [F::one(), F::GENERATOR, rnd(rng)] {
+        for off in [F::one(), F::GENERATOR, rnz(rng)] {
             let cd = d.get_coset(off).unwrap();
             let pfx = format!("{} {} {:x} {}", id, D::K, m, h(&off));
             out.line(&format!("C07 elems {}", pfx), &guarded(|| hl(&cd.elements().collect::<Vec<_>>())));
@@ -305,7 +309,7 @@ fn kind_ops<F: FftField + PrimeField, D: Dom<F>>(id: &str, caps: &Caps, thorough
     // ---- vanishing polynomial, Lagrange coefficients
     for &m in sizes.iter().filter(|&&m| m <= caps.point_max || m == 256 || (thorough && m == 1024)) {
         let d = D::new(m).unwrap();
-        for off in [F::one(), F::GENERATOR, rnd(rng)] {
+        for off in [F::one(), F::GENERATOR, rnz(rng)] {
             let cd = d.get_coset(off).unwrap();
             let pfx = format!("{} {} {:x} {}", id, D::K, m, h(&off));
             out.line(&format!("C07 vanish {}", pfx), &guarded(|| {
@@ -337,7 +341,7 @@ fn kind_ops<F: FftField + PrimeField, D: Dom<F>>(id: &str, caps: &Caps, thorough
             for doff in [F::one(), F::GENERATOR] {
                 let cd = d.get_coset(doff).unwrap();
                 let g_n = d.group_gen();
-                let mut soffs = vec![doff, doff * g_n, doff * g_n * g_n, F::one(), rnd(rng)];
+                let mut soffs = vec![doff, doff * g_n, doff * g_n * g_n, F::one(), rnz(rng)];
                 if n % m == 0 { soffs.push(doff * d.element(n / m)); }
                 let mut seen: Vec<String> = Vec::new();
                 soffs.retain(|x| { let t = h(x); if seen.contains(&t) { false } else { seen.push(t); true } });
